@@ -20,6 +20,10 @@
      clamp    the value is forced into a range while the configuration is registered
      reshape  filter-chain tls_context / tls_context_set: always dumped as tls_context_set
 
+   Between start-up and the persisted dump an operator may query the admin API (GET /api/v1/config_dump, any
+   endpoint): a READ-ONLY step - it shows placeholders instead of keys, and must not change the effective
+   configuration nor, therefore, any later persisted dump (AdminDump; enumerated for the types that can hold a key).
+
    One action per step of the cycle the running proxy performs; `Defects` names ways for a
    marshaler pair to go wrong (checked to be *rejected*: the invariants are not vacuous). *)
 EXTENDS Integers, Sequences, FiniteSets, TLC, Json
@@ -29,6 +33,8 @@ CONSTANTS Types,      \* struct types of the type graph
           KindOf,     \* [Types -> [field -> kind]]
           ClassesOf,  \* [Types -> [field -> set of value classes the generator can materialise]]
           ConflictsOf,\* [Types -> set of two-element sets of fields MOSN refuses to load together]
+          SecretOf,   \* [Types -> fields that can hold a TLS private key: private_key itself, untyped containers (filter
+                      \*  configs, extends, per-filter maps) whose typical value embeds a tls_context]
           Width,      \* how many fields deviate from the base assignment (1 or 2)
           Defects
 
@@ -60,8 +66,9 @@ Valid(t, file) == \A p \in ConflictsOf[t] : \E f \in p : file[f] = "unset"
 
 (* ---------- state machine ---------- *)
 
-VARIABLES ty, file, pc, eff1, dump1, eff2, dump2
-vars == <<ty, file, pc, eff1, dump1, eff2, dump2>>
+VARIABLES ty, file, pc, eff1, dump1, eff2, dump2,
+          admin      \* whether admin config dumps are requested while the first life is running
+vars == <<ty, file, pc, eff1, dump1, eff2, dump2, admin>>
 
 Base(t, b, f) == IF b = "typ" /\ "typ" \in ClassesOf[t][f] THEN "typ" ELSE "unset"
 
@@ -81,24 +88,32 @@ None == [x \in {} |-> "unset"]
 Init == /\ ty \in Types
         /\ file \in Assignments(ty)
         /\ pc = "file"
+        /\ admin \in (IF SecretOf[ty] # {} THEN BOOLEAN ELSE {FALSE})
         /\ eff1 = None /\ dump1 = None /\ eff2 = None /\ dump2 = None
 
 Load1   == /\ pc = "file" /\ Valid(ty, file)
-           /\ eff1' = Eff(ty, file) /\ pc' = "running"
-           /\ UNCHANGED <<ty, file, dump1, eff2, dump2>>
+           /\ eff1' = Eff(ty, file) /\ pc' = IF admin THEN "queried-next" ELSE "running"
+           /\ UNCHANGED <<ty, file, dump1, eff2, dump2, admin>>
 Reject  == /\ pc = "file" /\ ~Valid(ty, file)
-           /\ pc' = "rejected" /\ UNCHANGED <<ty, file, eff1, dump1, eff2, dump2>>
+           /\ pc' = "rejected" /\ UNCHANGED <<ty, file, eff1, dump1, eff2, dump2, admin>>
+(* the admin dump builds a redacted COPY; writing the placeholder through shared storage is the named defect *)
+AdminDump == /\ pc = "queried-next"
+             /\ eff1' = IF "AdminDumpWritesThrough" \in Defects
+                         THEN [f \in DOMAIN eff1 |-> IF f \in SecretOf[ty] /\ eff1[f] \in {"typ", "bound"} THEN "redacted" ELSE eff1[f]]
+                         ELSE eff1
+             /\ pc' = "running"
+             /\ UNCHANGED <<ty, file, dump1, eff2, dump2, admin>>
 Dump1   == /\ pc = "running"
            /\ dump1' = Dump(ty, eff1) /\ pc' = "persisted"
-           /\ UNCHANGED <<ty, file, eff1, eff2, dump2>>
+           /\ UNCHANGED <<ty, file, eff1, eff2, dump2, admin>>
 Reload  == /\ pc = "persisted"
            /\ eff2' = Eff(ty, dump1) /\ pc' = "restarted"
-           /\ UNCHANGED <<ty, file, eff1, dump1, dump2>>
+           /\ UNCHANGED <<ty, file, eff1, dump1, dump2, admin>>
 Dump2   == /\ pc = "restarted"
            /\ dump2' = Dump(ty, eff2) /\ pc' = "done"
-           /\ UNCHANGED <<ty, file, eff1, dump1, eff2>>
+           /\ UNCHANGED <<ty, file, eff1, dump1, eff2, admin>>
 
-Next == Load1 \/ Reject \/ Dump1 \/ Reload \/ Dump2
+Next == Load1 \/ Reject \/ AdminDump \/ Dump1 \/ Reload \/ Dump2
 Spec == Init /\ [][Next]_vars
 
 (* ---------- C19 ---------- *)
@@ -115,6 +130,9 @@ SetSurvives    == pc \in {"persisted", "restarted", "done"} =>
                         /\ (file[f] = "bound" /\ k # "clamp" => dump1[f] = "bound")
                         /\ (file[f] = "zero" /\ k \in {"ptr", "ptrnull", "pair", "keep", "struct", "reshape"} => dump1[f] = "zero")
 
+\* an admin dump is read-only: the running configuration is what was loaded
+AdminReadOnly  == pc = "running" => eff1 = Eff(ty, file)
+
 (* ---------- what the harness must observe on the real code (used by ConfigDumpTrace) ---------- *)
 
 \* observation of a field in a persisted document, relative to the value the input file gave it:
@@ -128,5 +146,5 @@ ObsOf(k, c, d) == CASE d = "unset"                  -> "absent"
 ExpectedObs(t, a) == LET d == Dump(t, Eff(t, a)) IN [f \in FieldsOf[t] |-> ObsOf(KindOf[t][f], a[f], d[f])]
 
 (* one CASE line per abstract configuration, consumed by the Go driver *)
-EmitCase == pc = "file" => PrintT(<<"CASE", ToJson([t |-> ty, a |-> file])>>)
+EmitCase == pc = "file" => PrintT(<<"CASE", ToJson([t |-> ty, a |-> file, admin |-> admin])>>)
 ====
